@@ -230,37 +230,137 @@ theorem session_statuses (frames : List (Option RoutePath × ρ)) :
 
 end serve
 
-/-! ### the concrete device of the differential runs: a refused write leaves every tag as it was -/
+/-! ## A device that also has a routing table
 
-/-- **refused ⇒ tags and access log untouched, for every request (write, multiple, …)** -/
-theorem refused_tags_untouched (cfg : Config) (d : Dev) (rp : Option RoutePath) (toCM : Bool) (req : Req)
-    (h : accept cfg rp = false) :
-    (serve cfg d rp toCM req).1 = d ∧ (serve cfg d rp toCM req).2.status = 8
-      ∧ (serve cfg d rp toCM req).2.payload = none := by
-  unfold serve
-  rw [refused_no_access _ cfg d _ _ h]
+`UCMM.request` looks the request's first hop up in the routing table *before* the route-path test.  A hit
+is forwarded (outside the property, `forward` is arbitrary); a miss is a local request and **must go
+through the very same route-path test**, whatever the table contains. -/
+
+section routed
+variable {σ ρ π : Type} (exec : σ → ρ → Option (σ × π))
+  (forward : σ → Text → Option RoutePath → ρ → σ × Reply π) (routes : List Text) (cfg : Config) (st : σ)
+  (rp : Option RoutePath) (req : ρ)
+
+/-- when the request is local: no table, no route path, a first segment that is not a port, or a first hop
+the table does not list -/
+theorem findRoute_none_iff :
+    findRoute routes rp = none ↔
+      rp = none ∨ rp = some [] ∨ ∃ s rest, rp = some (s :: rest) ∧ ∀ k, routeKey s = some k → k ∉ routes := by
+  unfold findRoute
+  cases rp with
+  | none => simp
+  | some p =>
+    cases p with
+    | nil => simp
+    | cons s rest =>
+      cases hk : routeKey s with
+      | none => simp [hk]
+      | some k =>
+        by_cases hm : k ∈ routes
+        · simp [hk, hm]
+        · simp [hk, hm]
+
+/-- without a routing table every request is local -/
+theorem findRoute_no_table : findRoute [] rp = none := by
+  unfold findRoute
+  cases rp with
+  | none => rfl
+  | some p =>
+    cases p with
+    | nil => rfl
+    | cons s rest => cases hk : routeKey s <;> simp [hk]
+
+/-- **a request that misses the table is filtered exactly like on a device without a table** -/
+theorem local_when_table_misses (h : findRoute routes rp = none) :
+    serveRouted exec forward routes cfg st rp req = serveWith exec cfg st rp req := by
+  simp [serveRouted, h]
+
+/-- **… so a configured route path is enforced whatever the routing table holds**: a request whose first
+hop is not in the table and whose route path is not acceptable gets the error status, no payload, and
+nothing is executed or forwarded -/
+theorem refused_with_routing_table (hmiss : findRoute routes rp = none) (h : accept cfg rp = false) :
+    serveRouted exec forward routes cfg st rp req = (st, ⟨true, 8, none⟩) := by
+  rw [local_when_table_misses exec forward routes cfg st rp req hmiss, refused_no_access exec cfg st rp req h]
+
+/-- … and neither the executor nor the forwarder is consulted -/
+theorem refused_with_routing_table_ignores (exec' : σ → ρ → Option (σ × π))
+    (forward' : σ → Text → Option RoutePath → ρ → σ × Reply π)
+    (hmiss : findRoute routes rp = none) (h : accept cfg rp = false) :
+    serveRouted exec forward routes cfg st rp req = serveRouted exec' forward' routes cfg st rp req := by
+  rw [refused_with_routing_table exec forward routes cfg st rp req hmiss h,
+    refused_with_routing_table exec' forward' routes cfg st rp req hmiss h]
+
+/-- a hit is the forwarder's business only (the local executor is not consulted) -/
+theorem forwarded_when_table_hits (k : Text) (h : findRoute routes rp = some k) :
+    serveRouted exec forward routes cfg st rp req = forward st k rp req := by
+  simp [serveRouted, h]
+
+/-- a session on a device without a table is the session of the earlier sections -/
+theorem sessionRouted_no_table (frames : List (Option RoutePath × ρ)) :
+    sessionRouted exec forward [] cfg st frames = sessionWith exec cfg st frames := by
+  induction frames generalizing st with
+  | nil => rfl
+  | cons f rest ih =>
+    obtain ⟨frp, freq⟩ := f
+    rw [sessionRouted, sessionWith, local_when_table_misses exec forward [] cfg st frp freq (findRoute_no_table frp)]
+    cases hs : serveWith exec cfg st frp freq with
+    | mk st' r => simp only [ih]
+
+/-- a refused local frame ends the session of a device with a table, too -/
+theorem sessionRouted_refusal (post : List (Option RoutePath × ρ))
+    (hmiss : findRoute routes rp = none) (h : accept cfg rp = false) :
+    sessionRouted exec forward routes cfg st ((rp, req) :: post) = (st, [⟨true, 8, none⟩]) := by
+  rw [sessionRouted, refused_with_routing_table exec forward routes cfg st rp req hmiss h]
   simp
 
-/-- non-vacuity: the same write is performed when the route path matches and is not when it differs -/
+end routed
+
+/-- the hypotheses are satisfiable: configured 1/0, table {1/5}: 1/7 misses the table and is refused,
+1/5 hits it -/
+example : findRoute [[49, 47, 53]] (some [.pl 1 (.num 7)]) = none
+    ∧ accept (.path [.pl 1 (.num 0)]) (some [.pl 1 (.num 7)]) = false
+    ∧ findRoute [[49, 47, 53]] (some [.pl 1 (.num 5), .pl 1 (.num 0)]) = some [49, 47, 53] := by decide
+
+/-! ### the concrete device of the differential runs: a refused write leaves every tag as it was -/
+
+/-- **refused ⇒ tags and access log untouched, for every request (write, multiple, …)** and every routing
+table the first hop is not in -/
+theorem refused_tags_untouched (cfg : Config) (routes : List Text) (d : Dev) (rp : Option RoutePath) (toCM : Bool)
+    (req : Req) (hmiss : findRoute routes rp = none) (h : accept cfg rp = false) :
+    (serve cfg routes d rp toCM req).1 = d ∧ (serve cfg routes d rp toCM req).2.status = 8
+      ∧ (serve cfg routes d rp toCM req).2.payload = none := by
+  unfold serve
+  rw [refused_with_routing_table _ _ routes cfg d _ _ hmiss h]
+  simp
+
+/-- non-vacuity: the same write is performed when the route path matches and is not when it differs —
+with and without a routing table -/
 example :
-    (serve (.path [.pl 1 (.num 0)]) ⟨[[1, 2, 3, 4], [10, 20]], []⟩ (some [.pl 1 (.num 0)]) true
+    (serve (.path [.pl 1 (.num 0)]) [] ⟨[[1, 2, 3, 4], [10, 20]], []⟩ (some [.pl 1 (.num 0)]) true
       (.single (.write 0 1 [77]))).1.tags = [[1, 77, 3, 4], [10, 20]]
-    ∧ (serve (.path [.pl 1 (.num 0)]) ⟨[[1, 2, 3, 4], [10, 20]], []⟩ (some [.pl 1 (.num 1)]) true
-      (.single (.write 0 1 [77]))).1 = ⟨[[1, 2, 3, 4], [10, 20]], []⟩ := by decide
+    ∧ (serve (.path [.pl 1 (.num 0)]) [] ⟨[[1, 2, 3, 4], [10, 20]], []⟩ (some [.pl 1 (.num 1)]) true
+      (.single (.write 0 1 [77]))).1 = ⟨[[1, 2, 3, 4], [10, 20]], []⟩
+    ∧ (serve (.path [.pl 1 (.num 0)]) [[49, 47, 53]] ⟨[[1, 2, 3, 4], [10, 20]], []⟩ (some [.pl 1 (.num 7)]) true
+      (.single (.write 0 1 [77]))).1 = ⟨[[1, 2, 3, 4], [10, 20]], []⟩
+    ∧ (serve (.path [.pl 1 (.num 0)]) [[49, 47, 53]] ⟨[[1, 2, 3, 4], [10, 20]], []⟩ (some [.pl 1 (.num 0)]) true
+      (.single (.write 0 1 [77]))).1.tags = [[1, 77, 3, 4], [10, 20]] := by decide
 
 /-- an Unconnected Send that does not address a Connection Manager is not executed either, whatever
 the personality and the route path (repo fix 080c990): error status, tags and access log untouched -/
-theorem not_to_cm_untouched (cfg : Config) (d : Dev) (rp : Option RoutePath) (req : Req) :
-    (serve cfg d rp false req).1 = d ∧ (serve cfg d rp false req).2.status = 8
-      ∧ (serve cfg d rp false req).2.payload = none := by
-  unfold serve serveWith
+theorem not_to_cm_untouched (cfg : Config) (routes : List Text) (d : Dev) (rp : Option RoutePath) (req : Req)
+    (hmiss : findRoute routes rp = none) :
+    (serve cfg routes d rp false req).1 = d ∧ (serve cfg routes d rp false req).2.status = 8
+      ∧ (serve cfg routes d rp false req).2.payload = none := by
+  unfold serve
+  rw [local_when_table_misses _ _ routes cfg d _ _ hmiss]
+  unfold serveWith
   cases accept cfg rp <;> simp [execFrame]
 
 /-- an unknown tag, when the route path is acceptable, is *answered* (status 0, a CIP error inside) and
 the session goes on (repo fix e94e54f); when it is not acceptable the frame is refused like any other -/
 example :
-    (serve .falsy ⟨[[1, 2, 3, 4], [10, 20]], []⟩ (some []) true (.single (.unknown false))).2.status = 0
-    ∧ (serve .falsy ⟨[[1, 2, 3, 4], [10, 20]], []⟩ (some [.pl 1 (.num 0)]) true (.single (.unknown false))).2.status = 8 := by
+    (serve .falsy [] ⟨[[1, 2, 3, 4], [10, 20]], []⟩ (some []) true (.single (.unknown false))).2.status = 0
+    ∧ (serve .falsy [] ⟨[[1, 2, 3, 4], [10, 20]], []⟩ (some [.pl 1 (.num 0)]) true (.single (.unknown false))).2.status = 8 := by
   decide
 
 /-! ## Textual route paths denote the segments they spell -/
